@@ -350,6 +350,7 @@ type Clause struct {
 	Label string
 	Text  string
 	Only  string // restrict to one behaviour ("@name" prefix)
+	Abstract bool
 }
 
 type LoopSpec struct {
@@ -385,6 +386,8 @@ type FuncSpec struct {
 }
 
 type PureDef struct {
+	Ensures *CExpr // rec only: a property of every application, proved by induction on the definition (see VerifyRecDefs)
+	Rec    bool // recursive spec function: applications stay symbolic, each is unfolded once (fuel 1) by the generator
 	Pkg    string
 	Name   string
 	Params []CVar
@@ -402,10 +405,16 @@ type LemmaSpec struct {
 	Theory   string
 }
 
+type UninterpDef struct {
+	Pkg, Name, Ret string
+	Args           []string
+}
+
 type SpecFile struct {
-	Funcs  []*FuncSpec
-	Pures  []*PureDef
-	Lemmas []*LemmaSpec
+	Funcs    []*FuncSpec
+	Pures    []*PureDef
+	Lemmas   []*LemmaSpec
+	Uninterp []*UninterpDef
 }
 
 func parseParams(s string) []CVar {
@@ -549,7 +558,7 @@ func ParseSpecLines(pkg, file string, lines []string, lineNos []int) (*SpecFile,
 				return nil, errf(n, "ghost outside func")
 			}
 			curB.Ghost = append(curB.Ghost, parseParams(rest)...)
-		case "requires", "ensures":
+		case "requires", "ensures", "abstract":
 			c, err := parseClause(kw)
 			if err != nil {
 				return nil, err
@@ -568,6 +577,9 @@ func ParseSpecLines(pkg, file string, lines []string, lineNos []int) (*SpecFile,
 			if kw == "requires" {
 				curB.Requires = append(curB.Requires, c)
 			} else {
+				// "abstract": names the function's value by an uninterpreted spec function (the code is a function of its
+				// inputs, A-DET); assumed at call sites, not an obligation of the body
+				c.Abstract = kw == "abstract"
 				curB.Ensures = append(curB.Ensures, c)
 			}
 		case "loop":
@@ -635,11 +647,11 @@ func ParseSpecLines(pkg, file string, lines []string, lineNos []int) (*SpecFile,
 			curF.Trusted = true
 		case "inline":
 			curF.Inline = true
-		case "pure", "pred":
+		case "rec", "pure", "pred":
 			curLem = nil
 			// pure func name(params) Type = body   |   pred name(params) = body
 			r := rest
-			if kw == "pure" {
+			if kw == "pure" || kw == "rec" {
 				r = strings.TrimSpace(strings.TrimPrefix(r, "func"))
 			}
 			j := strings.Index(r, "(")
@@ -657,12 +669,39 @@ func ParseSpecLines(pkg, file string, lines []string, lineNos []int) (*SpecFile,
 			if kw == "pred" {
 				pd.Ret = "bool"
 			}
-			e, err := ParseCExpr(after[eqi+1:])
+			bodySrc := after[eqi+1:]
+			if kw == "rec" {
+				// optional inductive property:  ... = body  ensures  P(result)
+				if k := strings.Index(bodySrc, " ensures "); k >= 0 {
+					pe, err := ParseCExpr(bodySrc[k+len(" ensures "):])
+					if err != nil {
+						return nil, errf(n, "%v", err)
+					}
+					pd.Ensures = pe
+					bodySrc = bodySrc[:k]
+				}
+			}
+			e, err := ParseCExpr(bodySrc)
 			if err != nil {
 				return nil, errf(n, "%v", err)
 			}
 			pd.Body = e
+			pd.Rec = kw == "rec"
 			sf.Pures = append(sf.Pures, pd)
+		case "uninterpreted":
+			// uninterpreted name(Sort, Sort) Sort   -- an uninterpreted spec function (its meaning is assumed by whoever uses it)
+			j := strings.Index(rest, "(")
+			k := matchParen(rest, j)
+			if j < 0 || k < 0 {
+				return nil, errf(n, "bad uninterpreted declaration")
+			}
+			u := &UninterpDef{Pkg: pkg, Name: strings.TrimSpace(rest[:j]), Ret: strings.TrimSpace(rest[k+1:])}
+			for _, a := range strings.Split(rest[j+1:k], ",") {
+				if a = strings.TrimSpace(a); a != "" {
+					u.Args = append(u.Args, a)
+				}
+			}
+			sf.Uninterp = append(sf.Uninterp, u)
 		case "lemma":
 			curF, curB, curL = nil, nil, nil
 			j := strings.Index(rest, "(")
